@@ -10,7 +10,7 @@ from mirsym.parser import Unsupported
 from mirsym.values import Adt, clone_val, PyVec, Some, NONE
 from mirsym.models.core import val_eq, z_and, z_all, z_any, z_not
 from .common import get_interp, show, Scheduler
-from .cloudworld import CloudWorld
+from .cloudworld import CloudWorld, Then, replay_scenario, replay_judge, validate_samples  # noqa: F401
 
 PROPERTY = 'C09'
 LEVEL = 'model_checking'
@@ -70,12 +70,16 @@ class Harness:
             progs.append(self.mk_program(w, servers[k], k, kind, l0, accepted, returned))
         sched = Scheduler(I, ctx, clients=list(range(self.nclients)))
         sched.READS = ('get', 'list')
+        w.begin_race()
         results = sched.run(progs, 'svc', max_steps=400)
+        w.end_race(sched)
         if any(k.startswith('add') for k in kinds) and len([k for k in kinds if k.startswith('add')]) >= 2:
             c.cover('two clients adding on the same parent')
 
         def wit(m):
-            return {'programs': kinds, 'schedule': [(t, lab) for t, lab in sched.trace], 'accepted': show([(a[0], a[1], a[3]) for a in accepted], m)}
+            scn, pred = w.record(m)
+            return {'programs': kinds, 'schedule': [(t, lab) for t, lab in sched.trace], 'accepted': show([(a[0], a[1], a[3]) for a in accepted], m),
+                    'cloud': {'scenario': scn, 'predicted': pred}}
         # --- every request of every program succeeded at the protocol level
         for k, res in enumerate(results):
             for r in res:
@@ -145,6 +149,9 @@ class Harness:
         out = {'programs': kinds, 'requests': len(sched.trace), 'accepted': len(accepted)}
         if c.want_sample:
             out['schedule'] = [t for t, _ in sched.trace]
+            m = c.get_model()
+            if m is not None:
+                out['scenario'], out['predicted'] = w.record(m)
             out['_encoded'] = sorted(I.encoded)
             out['_modelled'] = sorted(I.modelled)
         return out
@@ -217,19 +224,6 @@ def is_add_result(r):
     return r.variant == 0 and isinstance(r.fields[0], Adt) and r.fields[0].name == 'tuple' and len(r.fields[0].fields) == 2
 
 
-class Then:
-    """future adaptor: apply f to the result when ready"""
-
-    def __init__(self, fut, f):
-        self.fut, self.f = fut, f
-
-    def poll_model(self, I, cx):
-        r = I.poll_future(self.fut, cx)
-        if r.variant != 0:
-            return r
-        return Adt('Poll', 0, [self.f(r.fields[0])])
-
-
 def required_covers(tier):
     return ['two clients adding on the same parent', 'several accepted versions', 'a racing add_version was rejected']
 
@@ -248,7 +242,7 @@ def configs(tier):
 ASSUMPTIONS = [
     'interleaving granularity = one Service request (get / put / del / compare_and_swap / list page); the model store executes each request atomically, compare_and_swap included (the Service contract)',
     'cleanup is disabled here (its races are C10); snapshot urgency draw fixed; ring primitives idealised; version ids fresh, distinct, symbolic order',
-    'counterexamples are judged by the engine: CloudServer is not reachable through the public API (see DESIGN.md, hooks)',
+    'replay: programs and schedule are run on the compiled CloudServer over the gated hook store; confirmed when results, request log and store equal the prediction (ids up to renaming)',
 ]
 EXPLANATION = ('programs forked, schedules forked exhaustively (sleep sets over get/list), ids and payload bytes symbolic; after every '
                'schedule z3 must refute: two accepted children of one parent, an accepted version off the chain reachable from latest, '
